@@ -66,7 +66,7 @@ impl RandomProp for Typed {
             .boxed()
     }
     fn cases(env: &Env) -> u64 {
-        env.n(14 * 600, 14 * 30_000)
+        env.n(14 * 3000, 14 * 100_000)
     }
 }
 
